@@ -103,11 +103,15 @@ def poolOf (k : String) (l : List (String × Pool)) : Pool :=
   | none => []
 
 /-- the exportTo set `setDestinationRules` attaches to a rule -/
-def drExportSet (d : DR) : List String := if d.selector then ["."] else d.exportTo
+def drExportSet (guard : Bool) (m : Mesh) (d : DR) : List String :=
+  if d.selector then ["."]
+  -- repaired code (`guard`): no exportTo -> the mesh default, `.` standing for the rule's namespace
+  else if guard && d.exportTo.isEmpty then (defaultExport m.defDR).map fun e => if e == "." then d.ns else e
+  else d.exportTo
 
 /-- one rule in `setDestinationRules` -/
-def drStep (enhanced : Bool) (m : Mesh) (idx : DRIndex) (d : DR) : DRIndex :=
-  let ex := drExportSet d
+def drStep (enhanced guard : Bool) (m : Mesh) (idx : DRIndex) (d : DR) : DRIndex :=
+  let ex := drExportSet guard m d
   let idx1 :=
     if ex.isEmpty || ex.contains "*" || ex.contains "." || ex.contains d.ns then
       { idx with namespaceLocal := ainsert d.ns (mergeDR enhanced (poolOf d.ns idx.namespaceLocal) d ex) idx.namespaceLocal }
@@ -129,8 +133,8 @@ where
     | a :: t => t.all (· == a)
 
 /-- `PushContext.setDestinationRules` -/
-def setDestinationRules (enhanced : Bool) (m : Mesh) (drs : List DR) : DRIndex :=
-  (sortDRs drs).foldl (drStep enhanced m) {}
+def setDestinationRules (enhanced guard : Bool) (m : Mesh) (drs : List DR) : DRIndex :=
+  (sortDRs drs).foldl (drStep enhanced guard m) {}
 
 /-- `host.MoreSpecific` restricted to two wildcard names -/
 def moreSpecificW (a b : String) : Bool :=
